@@ -47,8 +47,12 @@ def generate(ck):
         {"cls": "single", "nx": 3, "table": {"kind": "shipped", "name": "haynesville"}, "p_i": 9000.0, "p_f": 1000.0, "alpha_branch": False, "schedule": None, "grid": {"family": "huge-steps", "nt": 6, "t_end": 1.0, "seed": 2}},
         {"cls": "single", "nx": 400, "table": {"kind": "shipped", "name": "pvt_oil_single"}, "p_i": 6000.0, "p_f": 1000.0, "alpha_branch": False, "schedule": None, "grid": {"family": "geometric", "nt": 40, "t_end": 5.0, "seed": 3}},
     ]
+    descs.append({"cls": "ideal", "nx": 40, "p_i": 8000.0, "p_f": 100.0, "alpha_var": {"kind": "linear", "beta": 3.0}, "grid": {"family": "dyadic-blocks", "nt": 60, "t_end": 2.0, "seed": 4}})
     for _ in range(n):
-        descs.append(sim.random_sim_desc(rng, ck.tier, twophase_share=0.08))
+        d = sim.random_sim_desc(rng, ck.tier, twophase_share=0.08)
+        if d["cls"] == "ideal" and rng.random() < 0.5:
+            d["alpha_var"] = {"kind": str(rng.choice(["linear", "exp", "step"])), "beta": float(rng.choice([0.5, 3.0, 20.0]))}
+        descs.append(d)
     return descs
 
 
@@ -95,7 +99,9 @@ def run_case(ck, desc):
 def judge_steps(ck, desc, cls, res, t, pp, m_i, m_f, calls=0):
     """Monitor 2: state-based residual with a bracketed mesh constant (driver and pytest workload)."""
     nt, nx = pp.shape
-    r = sim.step_residuals(res, cls, t, pp, m_i, m_f)
+    r = sim.step_residuals(res, cls, t, pp, m_i, m_f, alpha_fn=sim.alpha_var_fn(desc))
+    if desc.get("alpha_var"):
+        ck.count("runs_user_subclass_overriding_alpha_scaled")
     ck.count("steps_checked", nt - 1)
     ck.count("rows_checked", r["n_rows"])
     if "alpha_lookup_vs_library" in r:
